@@ -84,7 +84,7 @@ type Contracts struct {
 	Files  []string
 }
 
-var clauseKeywords = map[string]bool{"exit": true, "search": true, "func": true, "requires": true, "ensures": true, "modifies": true, "loop": true, "walk": true,
+var clauseKeywords = map[string]bool{"serves": true, "exit": true, "search": true, "func": true, "requires": true, "ensures": true, "modifies": true, "loop": true, "walk": true,
 	"inline": true, "sets": true, "trusted-ensures": true, "spec": true, "lemma": true, "trusted": true, "package": true}
 
 var labelRe = regexp.MustCompile(`^\[([A-Z0-9, ]+)\]\s*`)
@@ -331,6 +331,16 @@ func (cs *Contracts) parseFile(file, pkgPath string, data string) error {
 			}
 			for _, p := range c.Labels {
 				cur.Props[p] = true
+			}
+		case "serves":
+			// serves C07, C02: the function's unlabelled obligations (no-panic, frames) count for these properties too
+			if cur == nil {
+				return fmt.Errorf("%s:%d: serves outside func", l.file, l.line)
+			}
+			for _, p := range strings.Split(rest, ",") {
+				if p = strings.TrimSpace(p); p != "" {
+					cur.Props[p] = true
+				}
 			}
 		case "exit":
 			if cur == nil {
